@@ -62,6 +62,7 @@ func genC15(t *rapid.T) C15Case {
 	fixEmptyLists(tree)
 	normSymbolic(tree)
 	u := UniverseFor(t, tree, false)
+	operatorLikeNames(t, tree, u)
 	c := C15Case{U: *u, Tree: tree}
 	redundant := rapid.Bool().Draw(t, "redundant")
 	c.Infix = m.RenderInfix(tree, m.InfixOpts{
@@ -166,6 +167,12 @@ func checkC15(c C15Case, r *Rec) *Violation {
 	}
 	if bare {
 		r.Class("bare-atom")
+	}
+	for _, v := range u.Vars {
+		if m.IsBuiltin(v.Name) || v.Name == "all" || v.Name == "map" || v.Name == "any" || v.Name == "filter" || v.Name == "let" {
+			r.Class("variable-named-like-an-operator-or-keyword")
+			break
+		}
 	}
 	callArg := false
 	c.Tree.Walk(func(x *m.Node) {
